@@ -86,6 +86,10 @@ def classify(div, policy):
         if div['code_ok'] and not div['spec_ok']:
             if fails & og or '*' in og:
                 return 'violation', 'accepted although guard(s) %s fail' % sorted(fails & og or fails)
+            # composed instances: the refusal belongs wholly to the contract in FRONT of this property's contract (its
+            # guards are another property's); what reaches this property's contract is then a well-formed call
+            if fails and fails <= set(policy.get('upstream_guards', [])):
+                return 'foreign', 'accepted although the upstream contract\'s guard(s) %s fail' % sorted(fails)
             # "refused calls change nothing": a call the specification refuses (whoever owns the guard) that went
             # through and moved state this property owns
             fields_ = [d['field'] for d in div.get('diffs', [])]
@@ -237,9 +241,14 @@ def graph_job(prop, tier, seed, job, policy, known, acc):
     if rv is not False:
         walks, n_arrival = g.add_arrival_probes(walks, budget=rv.get('quick_arrival_budget', 3000) if tier == 'quick' else rv.get('thorough_arrival_budget', 30000 if module in ('ITS', 'System') else 200000), seed=seed)
     walks = walks + rv_walks
+    # accepted a moment ago, refused now (short gap, no long pause in between)
+    fl_walks = g.flip_walks(budget=rv.get('quick_flip_budget', 1500) if tier == 'quick' else rv.get('thorough_flip_budget', 8000 if module in ('ITS', 'System', 'Bridge') else 40000),
+                            seed=seed) if rv is not False else []
+    modes = {len(walks) + i: 'A' for i in range(len(fl_walks))}
+    walks = walks + fl_walks
     ctl = job.get('control')
     wpath = os.path.join(outdir, 'walks.ndjson')
-    G.write_walks(wpath, inst, g, walks, control=ctl, evkinds=job.get('evkinds'))
+    G.write_walks(wpath, inst, g, walks, control=ctl, evkinds=job.get('evkinds'), modes=modes)
     t = time.time()
     results = replay(module, wpath, os.path.join(outdir, 'replay.ndjson'), threads=job.get('threads', 16))
     rsecs = time.time() - t
@@ -294,7 +303,9 @@ def graph_job(prop, tier, seed, job, policy, known, acc):
             continue
         if div['kind'] == 'init':
             fields = {d_['field'].split('.')[0] for d_ in div.get('diffs', [])}
-            if fields and fields <= set(job.get('init_fields', [])):
+            # what the constructor was told (role holders, configuration) and reports differently: the property owning
+            # the field owns the finding; anything else the harness builds itself and is a tool problem
+            if fields and fields <= set(job.get('init_fields', [])) | set(job.get('init_owned', [])):
                 # what a freshly constructed contract reports about itself (not something the harness builds)
                 if walks_by_id is None:
                     walks_by_id = {}
@@ -307,7 +318,13 @@ def graph_job(prop, tier, seed, job, policy, known, acc):
                 path = write_replay_file(prop, tier, seed, module, inst, walks_by_id[r['walk']], r, 'violation', reason)
                 acc['violations'].append({'replay': path, 'reason': reason, 'spec': spec, 'act': None})
                 continue
-            raise ToolError('the harness cannot construct the initial state of %s: %s' % (spec, json.dumps(div)[:600]))
+            # the constructor reports something another property owns (e.g. a role seated on the wrong address): this
+            # instance cannot be walked on such code; it is that property's finding, recorded here, never an alarm
+            if not any(f_.get('kind') == 'init' and f_.get('spec') == spec for f_ in acc['foreign']):
+                acc['foreign'].append({'spec': spec, 'kind': 'init', 'act': None,
+                                       'reason': 'instance not walked: the initial projection differs in %s, which this property does not own: %s' % (sorted(fields), json.dumps(div.get('diffs'))[:300])})
+                log('NOTE %s: %s not walked - initial projection differs in fields this property does not own: %s' % (prop, spec, sorted(fields)))
+            continue
         if walks_by_id is None:
             walks_by_id = {}
             with open(wpath) as f:
@@ -317,7 +334,13 @@ def graph_job(prop, tier, seed, job, policy, known, acc):
                     walks_by_id[w['id']] = w
         if job.get('selfcheck'):
             raise ToolError('harness self-check %s failed: %s' % (module, json.dumps(div)[:800]))
-        verdict, reason = classify(div, policy)
+        # composed instances project several contracts side by side ("A.bal", "B.bal"): ownership is by the plain name
+        for pre_ in job.get('field_prefixes', []):
+            for d_ in div.get('diffs', []) or []:
+                if d_['field'].startswith(pre_):
+                    d_['field_full'] = d_['field']
+                    d_['field'] = d_['field'][len(pre_):]
+        verdict, reason = classify(div, dict(policy, **job.get('policy_extra', {})))
         if verdict == 'violation':
             k = match_known(div, prop, known)
             if k:
@@ -332,7 +355,7 @@ def graph_job(prop, tier, seed, job, policy, known, acc):
     distinct_nontrivial = len({G.canon([e['act'], e['_pre']]) for i, e in enumerate(edges) if select is None or i in select})
     acc['jobs'].append({'spec': spec, 'cfg': cfgname, 'design_run': design, 'module': module, 'states': stats['distinct'], 'transitions': len(edges),
                         'tlc_generated': stats['generated'], 'depth': stats['depth'], 'tlc_s': stats['tlc_s'],
-                        'edges_replayed': len(edges) if select is None else len(select), 'walks': len(walks), 'revisit_walks': len(rv_walks), 'arrival_probes': n_arrival,
+                        'edges_replayed': len(edges) if select is None else len(select), 'walks': len(walks), 'revisit_walks': len(rv_walks), 'arrival_probes': n_arrival, 'flip_walks': len(fl_walks),
                         'steps_executed': nsteps, 'replay_s': round(rsecs, 1), 'exhaustive_replay': exhaustive,
                         'edges_by_action_outcome': byact, 'distinct_nontrivial': distinct_nontrivial})
     if not acc.get('sample'):
